@@ -150,7 +150,9 @@ Inductive step :=
 | SRot                                          (* forced memtable rotation *)
 | SFl                                           (* flush of the oldest sealed memtable *)
 | SMv (fids : list N) (lvl : N)                 (* L0 -> ingest buffer move *)
-| SGc (b f : N) (es : list entry) (border hord : list N).   (* value-log rewrite of file f *)
+| SGc (b f : N) (es : list entry) (border hord : list N)    (* value-log rewrite of file f *)
+| SCl.                                          (* the tail of a clean Close: wal.Close flushes the userland buffer
+                                                   (the flushes of the sealed memtables it waits for are SFl steps) *)
 
 Inductive mop :=
 | MVRot (b : N) | MVApp (b : N) (e : entry)
@@ -206,6 +208,7 @@ Definition compile_step (sync : bool) (s : step) : list mop :=
   | SGc b f es border hord =>
       request_mops sync es border hord ++
       (match es with [] => [MVlogDel b f; MVlogRm b f] | _ => [] end)
+  | SCl => [MFlushBuf]
   end.
 
 Definition compile (sync : bool) (w : list step) : list mop := flat_map (compile_step sync) w.
@@ -352,6 +355,13 @@ Definition crash (st : mstate) : disk := fst st.
     listing sorted by id is the creation order the model keeps its files in; "newest first"
     is the reversed creation order. *)
 
+Fixpoint insert_desc {A : Type} (x : N * A) (l : list (N * A)) : list (N * A) :=
+  match l with
+  | [] => [x]
+  | y :: l' => if fst y <? fst x then x :: l else y :: insert_desc x l'
+  end.
+Definition sort_desc {A : Type} (l : list (N * A)) : list (N * A) := fold_right insert_desc [] l.
+
 (** levelManager.build: tables the manifest names and whose file is there (a missing one is
     dropped with a DeleteFile edit); oldest first *)
 Definition sst_chunks (d : disk) (v : mver) : list (list rec) :=
@@ -497,19 +507,22 @@ Definition gc_file (s : rstore) (b f : N) : rstore :=
 Inductive maint :=
 | MtFlushAll     (* rotate, flush every sealed memtable: same sources in the same order, plus a new empty active memtable *)
 | MtMove         (* all L0 tables into the ingest buffer: same order *)
+| MtSeal (b : N) (* new client writes of other keys until the value-log file of bucket b rotates *)
 | MtGc (b f : N).
 
 Definition maint_step (s : rstore) (m : maint) : rstore :=
   match m with
   | MtFlushAll => {| s_src := [] :: s_src s; s_vlog := s_vlog s; s_seq := s_seq s |}
   | MtMove => s
+  | MtSeal b => {| s_src := s_src s; s_vlog := fput pair_eqb (b, max_fid b (s_vlog s) + 1) [] (s_vlog s); s_seq := s_seq s |}
   | MtGc b f => gc_file s b f
   end.
 
 Definition maint_all (ms : list maint) (s : rstore) : rstore := fold_left maint_step ms s.
 
-(** the sealed files of every bucket, as the harness visits them *)
+(** the sealed files of every bucket, as the harness visits them: newest first *)
 Definition sealed_files (nb : nat) (s : rstore) : list maint :=
-  flat_map (fun b => map (fun x => MtGc b (snd (fst x)))
-                         (filter (fun x => (fst (fst x) =? b) && (snd (fst x) <? max_fid b (s_vlog s))) (s_vlog s)))
+  flat_map (fun b => map (fun x => MtGc b (fst x))
+                         (sort_desc (map (fun x => (snd (fst x), tt))
+                            (filter (fun x => (fst (fst x) =? b) && (snd (fst x) <? max_fid b (s_vlog s))) (s_vlog s)))))
            (range_N nb).
